@@ -86,6 +86,8 @@ def check_validity(src, name, parts, subs, res, tag=""):
             continue
         for p in range(parts[t]):
             ok = (t, p) in owner
+            if src.twin and tag.startswith("user data"):
+                ok = False  # seeded oracle error for harnesses whose balance twin is rarely reachable
             src.check(ok, tag + f"partition {(t, p)} of a subscribed topic has no owner", **info)
     return owner
 
